@@ -209,7 +209,7 @@ def gen_case(rng):
     c = float(np.ldexp(1.0, int(rng.integers(-8, 9)) if rng.random() < .75 else int(rng.integers(-40, 41))))
     if r < .55:
         sr = float(gens.pick(rng, [1, 100, 512, 2000]))
-        n = int(gens.pick(rng, [512, 1000, 4000]))
+        n = int(gens.pick(rng, [512, 1000, 4000, 4000, 30000]))
         cyc = rng.uniform(10, n / 12)
         return {'kind': 'sin', 'method': gens.pick(rng, ['hilbert', 'nht', 'quad']), 'sr': sr, 'n': n, 'f': float(cyc * sr / n),
                 'A': float(10 ** rng.uniform(-1.5, 1.5)), 'ph0': float(rng.uniform(0, 2 * np.pi)), 'ncol': int(rng.integers(1, 4)), 'c': c,
